@@ -9,15 +9,16 @@ import overlay
 import vlib
 
 
-def cfg(nreq, maxrep, maxops, fixed=False, unreg=False, export=True):
+def cfg(nreq, maxrep, maxops, fixed=False, unreg=False, export=True, zero=99):
     b = lambda x: "TRUE" if x else "FALSE"
-    return ("CONSTANTS NReq = %d MaxReplies = %d MaxOps = %d FixedPid = %s UnregOnTimeoutOnly = %s AllowBlocking = FALSE Export = %s\n"
+    return ("CONSTANTS NReq = %d MaxReplies = %d MaxOps = %d FixedPid = %s UnregOnTimeoutOnly = %s AllowBlocking = FALSE Export = %s ZeroFrom = %d\n"
             "SPECIFICATION Spec\nINVARIANTS TypeOK C11_Correlated C11_Unregistered C11_AtMostOnce C11_LateIsDead ExportCase\n" % (
-                nreq, maxrep, maxops, b(fixed), b(unreg), b(export)))
+                nreq, maxrep, maxops, b(fixed), b(unreg), b(export), zero))
 
 
-PLAN = {"quick": [("req2_rep2_ops6", (2, 2, 6))],
-        "thorough": [("req2_rep3_ops8", (2, 3, 8)), ("req3_rep2_ops8", (3, 2, 8))]}
+# (nreq, maxrep, maxops[, first request issued with a timeout of zero])
+PLAN = {"quick": [("req2_rep2_ops6", (2, 2, 6)), ("req2_zero_timeout_ops5", (2, 2, 5, 2))],
+        "thorough": [("req2_rep3_ops8", (2, 3, 8)), ("req3_rep2_ops8", (3, 2, 8)), ("req3_zero_timeout_ops7", (3, 2, 7, 2))]}
 
 
 def run(prop, tier, replay):
@@ -50,8 +51,8 @@ def run(prop, tier, replay):
             "replies are placed clearly before Result() is called, while it waits (well inside the 80 ms timeout) or after it has returned; the outcome of a reply racing the deadline itself is not decided",
             "one responder actor; requests issued from one goroutine; a timeout is reported as such only if at least the timeout has elapsed since Result() was called",
         ]
-        for tag, (nreq, maxrep, maxops) in PLAN[tier]:
-            r, cases = fam_wire.tlc_cases(sc, "ReqResp.tla", cfg(nreq, maxrep, maxops), tag)
+        for tag, params in PLAN[tier]:
+            r, cases = fam_wire.tlc_cases(sc, "ReqResp.tla", cfg(*params[:3], zero=params[3] if len(params) > 3 else 99), tag)
             v.add_tlc(r, tag)
             if r.violated:
                 raise vlib.Broken("ReqResp.tla violates %s on %s: the model is wrong, not the code" % (r.violated, tag))
